@@ -14,8 +14,12 @@
      (Before that commit the folding went through f64 and
      `9007199254740993 + 1 == 9007199254740994` was false: DESIGN finding 10,
      now a regression case of the harness.)
-   * [e_fast] in Sem.v: `N of <set>` over consecutive pattern ids with N <= 0
-     (findings 6, 11) - still open.
+   * [pat_range_match]: the host function the emitted code calls for
+     `N of <set>` when the pattern ids of the set are consecutive
+     (lib/src/wasm/mod.rs), as repaired by commit bf5119e4.  Before, it
+     answered true for every N <= 0 (findings 6, 11);
+     [of_fast_path_equiv_loop] (QuirksProofs.v): it now agrees with the loop
+     for every N.
    * the undefined-flag aliasing of variable slots >= 64 found by this check
      was repaired by commit 93e33409 (regression stream "deep_vars"). *)
 From Coq Require Import List ZArith Bool Lia.
@@ -81,3 +85,12 @@ with prefold_list (es : exprs) : exprs :=
   | ENil => ENil
   | ECons e t => ECons (prefold e) (prefold_list t)
   end.
+
+(* pat_range_match(start, end, required) over the match lists of the patterns
+   with ids start..=end: number of patterns with at least one match, then
+   `match required { 0 => n == 0, r if r < 0 => n > 0, r => n >= r }` *)
+Definition pat_range_match (required : Z) (ms : list mlist) : bool :=
+  let n := Z.of_nat (length (filter matched ms)) in
+  if required =? 0 then n =? 0
+  else if required <? 0 then 0 <? n
+  else required <=? n.
